@@ -311,6 +311,63 @@ def run_retention(case, rec):
     return (last['ctx'], last['objs'], growth > 200)
 
 
+def run_cancel(case, rec):
+    """(b') an asynchronous dispatch that is CANCELLED while its elements are suspended (the client went away): afterwards
+    nothing of the request may stay referenced either - contexts, views, tokens dead, no tasks left behind"""
+    import asyncio
+    req = case['request']
+    refs = []
+    s = build('async', None, refs=refs, coroutine=True)
+    d = s.d
+    ctx_refs = []
+    outcomes = set()
+    measures = {}
+    done = 0
+
+    def live_tasks():
+        return sum(1 for o in gc.get_objects() if isinstance(o, asyncio.Task))
+    for N in (1, 10, 60):
+        while done < N:
+            c = Ctx(done)
+            ctx_refs.append(weakref.ref(c))
+
+            async def go(c=c):
+                t = asyncio.ensure_future(d.dispatch(TEXT[req], context=c))
+                for _ in range(case['steps']):
+                    await asyncio.sleep(0)
+                t.cancel()
+                try:
+                    await t
+                except asyncio.CancelledError:
+                    return 'cancelled'
+                return 'finished'
+            loop = VLoop()
+            try:
+                outcomes.add(loop.run(go()))
+            finally:
+                loop.close()
+            del c, go, loop
+            done += 1
+            rec.transitions += 1
+        gc.collect()
+        measures[N] = dict(ctx=sum(1 for r in ctx_refs if r() is not None), objs=sum(1 for r in refs if r() is not None), tasks=live_tasks())
+    last = measures[60]
+    if last['ctx']:
+        rec.violation('C13:b:context objects retained after a cancelled dispatch (%s)' % req, case, expected='0 alive',
+                      observed={n: m['ctx'] for n, m in measures.items()})
+    elif last['objs']:
+        rec.violation('C13:b:per-request objects retained after a cancelled dispatch (%s)' % req, case, expected='0 alive',
+                      observed={n: m['objs'] for n, m in measures.items()})
+    elif last['tasks'] > measures[10]['tasks'] + 5:
+        rec.violation('C13:b:tasks left behind by cancelled dispatches (%s)' % req, case, expected='no growth',
+                      observed={n: m['tasks'] for n, m in measures.items()})
+    rec.traces += 1
+    rec.states += 1
+    rec.nontrivial_n += 1
+    rec.counters['cancelled dispatches: ' + '/'.join(sorted(outcomes))] += 1
+    return (last['ctx'], last['objs'], tuple(sorted(outcomes)))
+
+
 # ---- (c) -------------------------------------------------------------------------------------------------------
 PAIRS = [
     ('whoami', 'ping'), ('page', 'limits'),
@@ -397,6 +454,9 @@ def gen_cases(ctx):
         for req in ('ok', 'boom', 'nobind', 'view', 'viewfail', 'ctx', 'ctxinject', 'jsok', 'jsfail', 'pdok', 'pdfail', 'batch',
                     'notif', 'unknown', 'vpd', 'vpdfail', 'vjs', 'vjsfail', 'fmt-strict-bad', 'pdv2', 'push', 'VARYING-unknown', 'VARYING-notif'):
             yield dict(part='b', kind=kind, request=req)
+    for req in ('batch', 'ctx', 'view', 'ok', 'pdok'):
+        for steps in (1, 2, 3, 5):
+            yield dict(part='cancel', request=req, steps=steps)
     # (c)
     for pair in PAIRS:
         deep = ctx.pick(pair in PAIRS[:2], True)
@@ -415,6 +475,8 @@ def run_case(case, rec):
         obs = run_history(case, r)
     elif case['part'] == 'b':
         obs = run_retention(case, r)
+    elif case['part'] == 'cancel':
+        obs = run_cancel(case, r)
     else:
         obs = run_threads_case(case, r)
     r.counters['part ' + case['part']] += 1
